@@ -229,7 +229,7 @@ def trace_repo_tests(tier, V, cov):
     else:
         # a random driver with arbitrary float matrices (rotations about random axes, scales, translations)
         cmd = [sys.executable, "-W", "ignore", os.path.join(VERIF, "harness", "sg_driver.py"), str(seed()), "150", "40"]
-        p = subprocess.run(cmd, cwd=d, env=env, capture_output=True, text=True, timeout=600)
+        p = subprocess.run(cmd, cwd=d, env=env, capture_output=True, text=True, timeout=1500)
         cov["driver_under_recorder"] = {"graphs": 150, "steps": 40, "rc": p.returncode}
         if p.returncode != 0:
             raise MachineryError("driver failed: " + p.stderr[-600:])
@@ -305,7 +305,7 @@ def main(argv):
     # spec self-tests: each seeded deviation must make TLC report GetIsPathProduct
     selftests = {}
     for flag in ("ghost", "forget", "keep"):
-        rr = tlc.run(d, "SceneGraph", cfg(depth=8, invs="INVARIANT GetIsPathProduct", **{flag: True}), timeout=600)
+        rr = tlc.run(d, "SceneGraph", cfg(depth=8, invs="INVARIANT GetIsPathProduct", **{flag: True}), timeout=1500)
         selftests[flag] = rr.violated
         if rr.violated != "GetIsPathProduct":
             raise MachineryError(f"spec self-test {flag}: expected GetIsPathProduct violation, got {rr.violated} {rr.error}")
